@@ -49,10 +49,67 @@ def copt_ql(xs):
     return "None" if xs is None else "(Some %s)" % cql(xs)
 
 
-def evaluate(U, expr, xs):
-    """lambdify_t(expr)(xs) broadcast to xs.shape (a constant expression lambdifies to a scalar)"""
-    res = U.lambdify_t(expr)(np.asarray([fl(x) for x in xs], dtype=float))
-    return fracs(np.broadcast_to(np.asarray(res, dtype=float), (len(xs),)))
+def nat(v):
+    """a number as a user would write it: Python int when integral, else float"""
+    v = Fraction(v)
+    return int(v) if v.denominator == 1 else float(v)
+
+
+GRID_VARIANTS = ("int64", "int32", "float32", "2d", "2d-fortran", "strided")
+
+
+def grid_variant(xs, variant):
+    """(indices into xs, array) - the same sample times as another dtype / memory layout"""
+    if variant in ("int64", "int32"):
+        idx = [i for i, x in enumerate(xs) if Fraction(x).denominator == 1]
+        return idx, np.array([int(xs[i]) for i in idx], dtype=variant)
+    idx = list(range(len(xs)))
+    base = np.array([fl(x) for x in xs], dtype=float)
+    if variant == "float32":
+        return idx, base.astype(np.float32)
+    if variant == "strided":
+        return idx, np.repeat(base, 2)[::2]
+    if len(idx) % 2:
+        idx = idx + [0]
+    arr = np.array([fl(xs[i]) for i in idx], dtype=float).reshape(2, -1)
+    return idx, (np.asfortranarray(arr) if variant == "2d-fortran" else arr)
+
+
+def evaluate(U, expr, xs, ck=None, sig=None, replay=None):
+    """lambdify_t(expr)(xs) broadcast to xs.shape (a constant expression lambdifies to a scalar).
+    With `ck`: the value at a time must not depend on the dtype / memory layout of the sampling grid -
+    the same times are re-evaluated as int64/int32 (integral times only), float32, 2-D, Fortran-ordered and
+    strided grids and compared with the float64 result (all inputs are dyadic, so every variant is exact)."""
+    lam = U.lambdify_t(expr)
+    res = lam(np.asarray([fl(x) for x in xs], dtype=float))
+    got = fracs(np.broadcast_to(np.asarray(res, dtype=float), (len(xs),)))
+    if ck is not None:
+        for variant in GRID_VARIANTS:
+            idx, arr = grid_variant(xs, variant)
+            if not idx:
+                continue
+            try:
+                r = lam(arr)
+                r = np.broadcast_to(np.asarray(r, dtype=float), arr.shape)
+                if r.shape != arr.shape:
+                    raise ValueError("result shape %s for a grid of shape %s" % (r.shape, arr.shape))
+                alt = fracs(r)
+            except Exception as e:  # noqa
+                rp = dict(replay or {})
+                rp.update({"grid": arr.tolist(), "grid_dtype": str(arr.dtype), "grid_shape": list(arr.shape), "error": "%s: %s" % (type(e).__name__, e)})
+                ck.fail("%s/sampling-grid/%s/raises" % (sig, variant),
+                        "evaluating on a %s sampling grid raised %s: %s (the float64 grid works)" % (variant, type(e).__name__, e), rp)
+                continue
+            ck.count((sig, variant, tuple(xs), repr(replay)), bucket="grid:" + variant)
+            bad = [k for k, i in enumerate(idx) if alt[k] != got[i]]
+            if bad:
+                k = bad[0]
+                rp = dict(replay or {})
+                rp.update({"grid": arr.tolist(), "grid_dtype": str(arr.dtype), "grid_shape": list(arr.shape), "t": str(xs[idx[k]]),
+                           "value_on_this_grid": str(alt[k]), "value_on_float64_grid": str(got[idx[k]])})
+                ck.fail("%s/sampling-grid/%s" % (sig, variant),
+                        "the value at t=%s is %s on a %s sampling grid but %s on the float64 grid" % (xs[idx[k]], alt[k], variant, got[idx[k]]), rp)
+    return got
 
 
 class Kern:
@@ -123,6 +180,7 @@ def sample_points(rng, knots, n_extra=4):
     if ks:
         xs += [ks[0] - Fraction(1, 4), ks[0] - 3, ks[-1] + Fraction(1, 4), ks[-1] + 3]
     xs += [dy(rng, -6, 10, 8) for _ in range(n_extra)]
+    xs += [Fraction(int(v)) for v in rng.integers(-6, 11, size=3)]      # whole-number times (integer-dtype grids)
     return xs
 
 
@@ -176,8 +234,9 @@ def sec_step(ck, U):
         vs = [dy(rng, -5, 5, 4) for _ in ts]
         fill = dy(rng, -3, 3, 2)
         xs = sample_points(rng, ts, 3)
-        expr = U.step_function([fl(t) for t in ts], [fl(v) for v in vs], fill=fl(fill))
-        got = evaluate(U, expr, xs)
+        num = nat if i % 2 else fl           # numbers as floats, or as a user writes them (ints where integral)
+        expr = U.step_function([num(t) for t in ts], [num(v) for v in vs], fill=num(fill))
+        got = evaluate(U, expr, xs, ck, "step_function", {"times": [str(t) for t in ts], "values": [str(v) for v in vs], "fill": str(fill)})
         ck.count(("step", tuple(ts), tuple(vs), fill), nontrivial=len(ts) > 1, bucket="step:" + mode)
         # oracle: last listed time <= x wins, else fill
         for x, g in zip(xs, got):
@@ -251,8 +310,10 @@ def sec_blocks(ck, U):
     for i, (mode, ivs, amps) in enumerate(cases):
         knots = [t for iv in ivs for t in iv]
         xs = sample_points(rng, knots, 3)
-        expr = U.blocks([(fl(a), fl(b)) for a, b in ivs], None if amps is None else [fl(a) for a in amps])
-        got = evaluate(U, expr, xs)
+        num = nat if i % 2 else fl
+        expr = U.blocks([(num(a), num(b)) for a, b in ivs], None if amps is None else [num(a) for a in amps])
+        got = evaluate(U, expr, xs, ck, "blocks", {"intervals": [(str(a), str(b)) for a, b in ivs],
+                                                   "amplitudes": None if amps is None else [str(a) for a in amps]})
         ck.count(("blocks", tuple(ivs), None if amps is None else tuple(amps)), nontrivial=len(ivs) > 1, bucket="blocks:" + mode)
         eff = list(amps) if amps is not None else [Fraction(1)] * len(ivs)
         pairs = list(zip(ivs, eff))
@@ -307,8 +368,10 @@ def sec_events(ck, U):
         gname, gc, gsym = gs[0] if amps is None or i % 2 == 0 else gs[1 + (i // 2) % 2]
         xs = sample_points(rng, ts, 4)
         kw = {} if gname == "a" else {"g": gsym}
-        expr = U.events([fl(t) for t in ts], None if amps is None else [fl(v) for v in amps], f=K.sym(), **kw)
-        got = evaluate(U, expr, xs)
+        num = nat if i % 2 else fl
+        expr = U.events([num(t) for t in ts], None if amps is None else [num(v) for v in amps], f=K.sym(), **kw)
+        got = evaluate(U, expr, xs, ck, "events", {"times": [str(t) for t in ts], "amplitudes": None if amps is None else [str(v) for v in amps],
+                                                   "kernel": K.describe(), "g": gname})
         ck.count(("events", tuple(ts), None if amps is None else tuple(amps), K.describe(), gname),
                  nontrivial=len(ts) > 1, bucket="events:%s:%s" % (mode, K.kind))
         eff = amps if amps is not None else [Fraction(1)] * len(ts)
@@ -347,8 +410,9 @@ def sec_interp(ck, U):
         fill = dy(rng, -3, 3, 2) if i % 3 else Fraction(0)
         xs = sample_points(rng, ts, 3)
         fn = U.interp if i % 2 else U.linear_interp
-        expr = fn([fl(t) for t in ts], [fl(v) for v in vs], fill=fl(fill))
-        got = evaluate(U, expr, xs)
+        num = nat if i % 4 >= 2 else fl
+        expr = fn([num(t) for t in ts], [num(v) for v in vs], fill=num(fill))
+        got = evaluate(U, expr, xs, ck, "interp", {"fn": fn.__name__, "times": [str(t) for t in ts], "values": [str(v) for v in vs], "fill": str(fill)})
         ck.count(("interp", tuple(ts), tuple(vs), fill), bucket="interp:n=%d" % len(ts))
         for x, g in zip(xs, got):
             if x < ts[0] or x > ts[-1]:
@@ -401,7 +465,8 @@ def sec_conv(ck, U):
                 expr = U.TimeConvolver(fexpr, fI, fl(dt), fill=fl(fill)).convolve(gexpr, gI)
             else:
                 expr = U.convolve_functions(fexpr, gexpr, fI, gI, fl(dt), fill=fl(fill))
-            got = evaluate(U, expr, xs)
+            got = evaluate(U, expr, xs, ck, "convolve", {"via": via, "f": F.describe(), "g": G.describe(), "f_interval": [str(v) for v in fiv],
+                                                         "g_interval": [str(v) for v in giv], "dt": str(dt), "fill": str(fill)})
         except Exception as e:  # noqa
             ck.fail("convolve/raises", "%s raised %s: %s" % (via, type(e).__name__, e),
                     {"f": F.describe(), "g": G.describe(), "f_interval": [str(v) for v in fiv], "g_interval": [str(v) for v in giv], "dt": str(dt)})
@@ -825,36 +890,131 @@ def sec_stack(ck, DS):
     ck.section("stack", cases=N)
 
 
+def effect_amplitudes(levels_by_factor, subset, ev):
+    """event-space contrast of the effect of the factors `subset` (main effect / interaction, reference = last level):
+    one amplitude vector over the events per tuple of non-reference levels:  prod_f (1[lev_f = i_f] - 1[lev_f = ref_f])"""
+    rows = []
+    for combo in itertools.product(*[levels_by_factor[f][:-1] for f in subset]):
+        amp = []
+        for e in ev:
+            v = 1
+            for f, lv in zip(subset, combo):
+                v *= (1 if e[f] == lv else 0) - (1 if e[f] == levels_by_factor[f][-1] else 0)
+            amp.append(v)
+        rows.append(amp)
+    return rows
+
+
 def sec_event_block_design(ck, U, DS, FM):
+    """event_design with 1..3 HRFs, 1..2 factors, optional level_contrasts:
+    columns = for every HRF and every level combination the sum of shifted kernels (exact);
+    contrasts: what `<effect>_<l>` / `constant_<l>` / `<level>_<l>` measures, X . C^T, is the named combination of
+    event time courses built from HRF number l (on a full-column-rank design this pins C uniquely)."""
     rng = ck.rng("evdesign")
-    N = ck.n(6, 40)
+    N = ck.n(16, 120)
+    n_con = 0
     for i in range(N):
-        K = Kern("box", (Fraction(0), Fraction(int(rng.integers(2, 6)), 2), Fraction(1))) if i % 2 else Kern("ramp", (Fraction(0), Fraction(2)))
-        h = K.sym()
-        ne = int(rng.integers(2, 6))
-        onsets = sorted(dy(rng, 0, 8, 2) for _ in range(ne))
-        levels = [int(rng.integers(1, 3)) for _ in range(ne)]
-        if len(set(levels)) == 1:
-            levels[0] = 3 - levels[0]
-        spec = FM.make_recarray(list(zip([fl(o) for o in onsets], levels)), ("time", "cond"))
-        t = np.arange(0, 12, 0.5)
+        nh = 1 + i % 3
+        pool = [Kern("box", (Fraction(0), Fraction(3, 2), Fraction(1))), Kern("ramp", (Fraction(0), Fraction(2))),
+                Kern("box", (Fraction(1, 2), Fraction(3), Fraction(2))), Kern("ramp", (Fraction(1), Fraction(5, 2)))]
+        Ks = [pool[k] for k in rng.choice(len(pool), size=nh, replace=False)]
+        hs = tuple(K.sym() for K in Ks)
+        nfac = 1 + (i // 3) % 2
+        fnames = ["cond", "side"][:nfac]
+        nlev = [int(rng.integers(2, 4)) if nfac == 1 else 2 for _ in range(nfac)]
+        combos = list(itertools.product(*[range(1, n + 1) for n in nlev]))
+        ne = len(combos) + int(rng.integers(0, 4))
+        evl = combos + [combos[int(rng.integers(0, len(combos)))] for _ in range(ne - len(combos))]
+        evl = [evl[k] for k in rng.permutation(len(evl))]
+        if i % 5 == 4:
+            onsets = [dy(rng, 0, 9, 2) for _ in range(ne)]                     # coincident onsets possible
+        else:
+            onsets = [Fraction(int(v), 2) for v in rng.choice(19, size=ne, replace=False)]
+        if i % 4 == 0:
+            onsets = sorted(onsets)
+        level_contrasts = bool((i // 2) % 2)
+        spec = FM.make_recarray([(fl(o),) + tuple(e) for o, e in zip(onsets, evl)], ("time",) + tuple(fnames))
+        t = np.arange(0, 14, 0.5)
+        rp = {"onsets": [str(o) for o in onsets], "factors": fnames, "levels": [list(e) for e in evl], "kernels": [K.describe() for K in Ks],
+              "level_contrasts": level_contrasts, "t": "arange(0, 14, 0.5)"}
         try:
-            X, c = DS.event_design(spec, t, hrfs=(h,))
+            X, c = DS.event_design(spec, t, hrfs=hs, level_contrasts=level_contrasts)
         except Exception as e:  # noqa
-            ck.fail("event_design/raises", "event_design raised %s: %s (onsets %s, levels %s)" % (type(e).__name__, e, onsets, levels),
-                    {"onsets": [str(o) for o in onsets], "levels": levels, "kernel": K.describe()})
+            ck.fail("event_design/raises", "event_design raised %s: %s" % (type(e).__name__, e), rp)
             continue
-        ck.count(("event_design", tuple(onsets), tuple(levels)), bucket="event_design")
-        X = np.asarray(X).reshape(len(t), -1)
-        ulev = sorted(set(levels))
-        want = np.array([[fl(sum((K.at(frac(tt) - o) for o, l in zip(onsets, levels) if l == lev), Fraction(0))) for lev in ulev] for tt in t])
-        cols_ok = X.shape == want.shape and all(
-            any(np.array_equal(X[:, j], want[:, m]) for j in range(X.shape[1])) for m in range(want.shape[1]))
-        if not cols_ok:
-            ck.fail("event_design/columns", "event_design columns are not the per-level sums of shifted kernels (onsets %s, levels %s)" % (onsets, levels),
-                    {"onsets": [str(o) for o in onsets], "levels": levels, "kernel": K.describe(), "X": X.tolist(), "expected": want.tolist()})
-        if "constant_0" not in c or "cond_0" not in c:
-            ck.fail("event_design/contrast-names", "contrast keys %s" % sorted(c), {"keys": sorted(c)})
+        ck.count(("event_design", tuple(onsets), tuple(evl), tuple(K.describe() for K in Ks), level_contrasts),
+                 bucket="event_design:hrfs=%d:factors=%d" % (nh, nfac))
+        X = np.asarray(X, dtype=float).reshape(len(t), -1)
+
+        def course(K, amp):
+            return np.array([fl(sum((a * K.at(frac(tt) - o) for o, a in zip(onsets, amp)), Fraction(0))) for tt in t])
+        # columns: HRF-major blocks, inside a block one column per level combination (order inside the block not assumed)
+        nc = len(combos)
+        by_combo = {}
+        for o, e in zip(onsets, evl):
+            by_combo.setdefault(e, []).append(o)
+        onset_sets = [tuple(sorted(v)) for v in by_combo.values()]
+        if len(set(onset_sets)) < len(onset_sets):
+            # two conditions with the same onsets give the SAME symbolic regressor: Formula.design merges equal terms into one
+            # column k*term (known finding design/duplicate-term-column-scaled, here reached through event_design)
+            if X.shape[1] < nh * nc:
+                ck.fail("design/duplicate-term-column-scaled",
+                        "event_design: two conditions with identical onsets are merged into one doubled column (%d columns for %d conditions x %d HRFs)" % (
+                            X.shape[1], nc, nh), dict(rp, X_shape=list(X.shape)))
+            continue
+        ok = X.shape == (len(t), nh * nc)
+        if ok:
+            for l, K in enumerate(Ks):
+                blk = X[:, l * nc:(l + 1) * nc]
+                for cb in combos:
+                    w = course(K, [1 if e == cb else 0 for e in evl])
+                    if not any(np.array_equal(blk[:, j], w) for j in range(nc)):
+                        ok = False
+        if not ok:
+            ck.fail("event_design/columns/hrfs=%s" % ("1" if nh == 1 else "many"),
+                    "event_design columns are not, HRF by HRF, the per-level sums of shifted kernels", dict(rp, X=X.tolist()))
+            continue
+        if np.linalg.matrix_rank(X) < X.shape[1]:
+            continue
+        n_con += 1
+        levels_by_factor = [list(range(1, n + 1)) for n in nlev]
+        ev = [tuple(e) for e in evl]
+        expected = {}
+        for l, K in enumerate(Ks):
+            expected["constant_%d" % l] = [course(K, [1] * ne)]
+            for r in range(1, nfac + 1):
+                for subset in itertools.combinations(range(nfac), r):
+                    key = ":".join(fnames[f] for f in subset) + "_%d" % l
+                    expected[key] = [course(K, amp) for amp in effect_amplitudes(levels_by_factor, subset, ev)]
+        if set(expected) - set(c) or (not level_contrasts and set(c) - set(expected)):
+            ck.fail("event_design/contrast-names", "contrast keys %s, expected %s" % (sorted(c), sorted(expected)), dict(rp, keys=sorted(c)))
+            continue
+        for key in sorted(c):
+            C = np.atleast_2d(np.asarray(c[key], dtype=float))
+            if C.shape[1] != X.shape[1]:
+                ck.fail("event_design/contrast-shape", "contrast %s has shape %s for a design with %d columns" % (key, C.shape, X.shape[1]), dict(rp, key=key))
+                break
+            meas = X @ C.T
+            if key in expected:
+                want = expected[key]
+                good = meas.shape[1] == len(want) and all(
+                    any(np.max(np.abs(meas[:, j] - w)) < 1e-8 for j in range(meas.shape[1])) for w in want)
+                kind = "constant" if key.startswith("constant") else ("interaction" if ":" in key else "main-effect")
+            else:   # level contrast `<level column>_<l>`: exactly one column, inside the block of HRF l
+                l = int(key.rsplit("_", 1)[1])
+                blk = X[:, l * nc:(l + 1) * nc]
+                good = meas.shape[1] == 1 and any(np.max(np.abs(meas[:, 0] - blk[:, j])) < 1e-8 for j in range(nc))
+                kind = "level"
+            if not good:
+                l = int(key.rsplit("_", 1)[1])
+                ck.fail("event_design/contrast-measures-named-terms/%s/%s" % (kind, "single-hrf" if nh == 1 else ("first-hrf" if l == 0 else "later-hrf")),
+                        "contrast %r of event_design with %d HRFs: X.C^T is not the %s time course built from HRF %d (C = %s)" % (
+                            key, nh, kind, l, np.round(C, 6).tolist()),
+                        dict(rp, key=key, contrast=C.tolist(), X=X.tolist()))
+                break
+        if i == 1:
+            ck.sample({"call": "event_design(onsets=%s, levels=%s, hrfs=%s)" % (rp["onsets"], rp["levels"], rp["kernels"]),
+                       "contrast_keys": sorted(c), "X_shape": list(X.shape)})
     # block_design: convolved block regressors against direct numerical convolution (np.convolve), 1e-10
     for i in range(ck.n(4, 20)):
         K = Kern("box", (Fraction(0), Fraction(int(rng.integers(1, 4))), Fraction(1, 2)))
@@ -893,7 +1053,7 @@ def sec_event_block_design(ck, U, DS, FM):
                 ck.fail("blocks/unsorted-disjoint-intervals",
                         "block_design with the block_spec rows %s (reverse time order) gives a different regressor than in time order" % list(reversed(ivs)),
                         {"blocks": list(reversed(ivs)), "kernel": K.describe(), "impl": Xr.tolist(), "expected": want.tolist()})
-    ck.section("event_block_design", event_cases=N)
+    ck.section("event_block_design", event_cases=N, event_contrast_cases_full_rank=n_con)
 
 
 def run(ck):
